@@ -114,10 +114,29 @@ func zzC17_dispatch() {
 	}, func(h Handler) Handler {
 		return HandlerFunc(func(w ResponseWriter, m *Message) { order = append(order, 2); h.ServeCOAP(w, m) })
 	})
-	if symChoose("remove", 2) == 1 && len(chosen) > 0 {
-		symAssert(r.HandleRemove(chosen[0]) == nil, "removal of a registered pattern succeeds")
-		chosen = chosen[1:]
-		symCover("removed")
+	stale := false // set when the handler first registered for a re-registered pattern runs
+	reRegistered := ""
+	switch symChoose("remove", 3) {
+	case 1:
+		if len(chosen) > 0 {
+			symAssert(r.HandleRemove(chosen[0]) == nil, "removal of a registered pattern succeeds")
+			chosen = chosen[1:]
+			symCover("removed")
+		}
+	case 2:
+		// a pattern that is already registered is registered again with another handler: the new one replaces it
+		if len(chosen) > 0 {
+			p := chosen[len(chosen)-1]
+			reRegistered = p
+			symAssert(r.Handle(p, HandlerFunc(func(w ResponseWriter, m *Message) {
+				invoked = append(invoked, p)
+				gotVars = m.RouteParams.Vars
+				gotTemplate = m.RouteParams.PathTemplate
+				stale = false
+			})) == nil, "registering a pattern again succeeds")
+			stale = true // until the new handler proves to be the one that runs
+			symCover("re-registered")
+		}
 	}
 	path := zzPaths[symChoose("path", len(zzPaths))]
 	req := &Message{Message: pool.NewMessage(context.Background()), RouteParams: new(RouteParams)}
@@ -170,6 +189,9 @@ func zzC17_dispatch() {
 		}
 	}
 	symAssert(len(order) == 2 && order[0] == 1 && order[1] == 2, "middlewares wrap the handler in registration order")
+	if reRegistered != "" && invoked[0] == reRegistered {
+		symAssert(!stale, "a pattern registered again dispatches to the handler registered last")
+	}
 }
 
 func zzC17_braces() {
